@@ -42,8 +42,8 @@ static uint32_t    RpCob[4], TpCob[4], RpMap[4][8], TpMap[4][8];
 static uint8_t     RpType[4], TpType[4], RpNum[4], TpNum[4];
 static uint16_t    TpInh[4], TpEvt[4];
 /* application objects */
-static uint8_t     A8, P8, B8[4];
-static uint16_t    A16, P16;
+static uint8_t     A8, P8, B8[8];
+static uint16_t    A16, P16, W16[4];
 static uint32_t    A32, P32, N32, R32, W32;
 static uint32_t    CsdoCobTx, CsdoCobRx; static uint8_t CsdoNode;
 
@@ -69,7 +69,8 @@ static void nc_build(void)
     memset(Hbc, 0, sizeof Hbc); memset(Hist, 0, sizeof Hist); HistNum = 0;
     memset(RpMap, 0, sizeof RpMap); memset(TpMap, 0, sizeof TpMap);
     A8 = 0x11; P8 = 0x22; A16 = 0x3344; P16 = 0x5566; A32 = 0x778899AA; P32 = 0xBBCCDDEE; N32 = 0x01020304; R32 = 0x0A0B0C0D; W32 = 0x0E0F1011;
-    for (i = 0; i < 4; i++) B8[i] = (uint8_t)(0xC0 + i);
+    for (i = 0; i < 8; i++) B8[i] = (uint8_t)(0xC0 + i);
+    for (i = 0; i < 4; i++) W16[i] = (uint16_t)(0xD0D0 + 0x101 * i);
     od_init(&b, OD, NC_OD_MAX); od_mandatory(&b, &ErrReg);
     if (NC.sdo_srv) od_sdo_server0(&b);
     if (NC.hist > 0) {
@@ -130,7 +131,9 @@ static void nc_build(void)
     od_add(&b, NC_KEY_P8,  CO_TUNSIGNED8,  (CO_DATA)&P8);
     od_add(&b, NC_KEY_P16, CO_TUNSIGNED16, (CO_DATA)&P16);
     od_add(&b, NC_KEY_P32, CO_TUNSIGNED32, (CO_DATA)&P32);
-    for (i = 0; i < 4; i++) od_add(&b, CO_KEY(0x2113, 1 + i, CO_OBJ____PRW), CO_TUNSIGNED8, (CO_DATA)&B8[i]);
+    for (i = 0; i < 8; i++) od_add(&b, CO_KEY(0x2113, 1 + i, CO_OBJ____PRW), CO_TUNSIGNED8, (CO_DATA)&B8[i]);
+    for (i = 0; i < 4; i++) od_add(&b, CO_KEY(0x2114, 1 + i, CO_OBJ____PRW), CO_TUNSIGNED16, (CO_DATA)&W16[i]);
+    od_add(&b, CO_KEY(0x2115, 0, CO_OBJ_D_____ | CO_OBJ____PRW), CO_TUNSIGNED32, (CO_DATA)0xD1D2D3D4u);
     od_add(&b, CO_KEY(0x2120, 0, CO_OBJ_____RW), CO_TUNSIGNED32, (CO_DATA)&N32);
     od_add(&b, CO_KEY(0x2121, 0, CO_OBJ____PR_), CO_TUNSIGNED32, (CO_DATA)&R32);
     od_add(&b, CO_KEY(0x2122, 0, CO_OBJ____P_W), CO_TUNSIGNED32, (CO_DATA)&W32);
@@ -142,7 +145,7 @@ static void nc_build(void)
     W_REG(Node); W_REG(OD); W_REG(ErrReg); W_REG(SdoBuf); W_REG(TMem); W_REG(HbTime); W_REG(HbcNum); W_REG(Hbc);
     W_REG(SyncId); W_REG(SyncCycle); W_REG(EmcyId); W_REG(HistNum); W_REG(Hist);
     W_REG(RpCob); W_REG(TpCob); W_REG(RpMap); W_REG(TpMap); W_REG(RpType); W_REG(TpType); W_REG(RpNum); W_REG(TpNum); W_REG(TpInh); W_REG(TpEvt);
-    W_REG(A8); W_REG(P8); W_REG(B8); W_REG(A16); W_REG(P16); W_REG(A32); W_REG(P32); W_REG(N32); W_REG(R32); W_REG(W32);
+    W_REG(A8); W_REG(P8); W_REG(B8); W_REG(A16); W_REG(P16); W_REG(W16); W_REG(A32); W_REG(P32); W_REG(N32); W_REG(R32); W_REG(W32);
     W_REG(CsdoCobTx); W_REG(CsdoCobRx); W_REG(CsdoNode);
     for (i = 0; i < CO_SSDO_N; i++) w_nohash_range(&Node.Sdo[i].Frm, sizeof Node.Sdo[i].Frm);
     /* these harnesses only use expedited transfers: the server is idle between steps and the multiplexer / abort
